@@ -130,6 +130,20 @@ theorem bit1 (m : Nat) : (m &&& 2 != 0) = m.testBit 1 := by have := land_pow_ne_
 theorem bit2 (m : Nat) : (m &&& 4 != 0) = m.testBit 2 := by have := land_pow_ne_zero m 2; simpa using this
 theorem bit3 (m : Nat) : (m &&& 8 != 0) = m.testBit 3 := by have := land_pow_ne_zero m 3; simpa using this
 theorem bit4 (m : Nat) : (m &&& 16 != 0) = m.testBit 4 := by have := land_pow_ne_zero m 4; simpa using this
+theorem or_ne_zero (x y : Nat) : (x ||| y != 0) = (x != 0 || y != 0) := by
+  by_cases a : x = 0
+  · subst a; rw [Nat.zero_or]; simp
+  · have h : x ||| y ≠ 0 := fun h => a (Nat.or_eq_zero_iff.mp h).1
+    have h1 : (x ||| y != 0) = true := by simpa using h
+    have h2 : (x != 0) = true := by simpa using a
+    rw [h1, h2]; rfl
+
+theorem bit0or7 (m : Nat) : (m &&& 129 != 0) = (m.testBit 0 || m.testBit 7) := by
+  have h0 := bit0 m
+  have h7 := land_pow_ne_zero m 7
+  simp only [show (2 : Nat) ^ 7 = 128 by decide] at h7
+  rw [← h0, ← h7, show (129 : Nat) = 1 ||| 128 by decide, Nat.and_or_distrib_left]
+  exact or_ne_zero _ _
 theorem bit3z (m : Nat) : (m &&& 8 == 0) = !m.testBit 3 := by
   rw [← bit3]; cases h : (m &&& 8 == 0) <;> simp_all [bne]
 
@@ -155,20 +169,28 @@ def expectPage (num : Nat) (p : Page) : PageInfo :=
   let base : PageInfo :=
     { pageNumber := num, indexType := t, typeString := typeString t, lsn := lsn, lsnStr := formatLSN lsn,
       freeSpace := (p.upper : Int) - (p.lower : Int), itemCount := Int.tdiv ((p.lower : Int) - 24) 4 }
-  match p.op with
+  metaHasNoItems (match p.op with
   | .btree pr nx lv f _ =>
     { base with prevBlock := pr, nextBlock := nx, level := lv, flags := f, isLeaf := f.testBit 0, isRoot := f.testBit 1,
                 isMeta := f.testBit 3, isDeleted := f.testBit 2, flagStrings := flagStrings 1 f }
   | .hash pr nx b f =>
     { base with prevBlock := pr, nextBlock := nx, flags := f, isMeta := f.testBit 3, level := if f.testBit 1 then b else 0,
-                flagStrings := flagStrings 2 f }
+                itemCount := if f.testBit 2 then 0 else base.itemCount, flagStrings := flagStrings 2 f }
   | .gist _ r f => { base with rightLink := r, flags := f, isLeaf := f.testBit 0, isDeleted := f.testBit 1, flagStrings := flagStrings 3 f }
   | .gin r m f =>
-    { base with rightLink := r, flags := f, itemCount := (m : Int), isLeaf := f.testBit 1, isMeta := f.testBit 3,
-                isDeleted := f.testBit 2, flagStrings := flagStrings 4 f }
+    { base with rightLink := r, flags := f, itemCount := if f.testBit 0 || f.testBit 7 then (m : Int) else base.itemCount,
+                isLeaf := f.testBit 1, isMeta := f.testBit 3, isDeleted := f.testBit 2, flagStrings := flagStrings 4 f }
   | .spgist f _ _ =>
     { base with flags := f, isLeaf := f.testBit 2, isMeta := f.testBit 0, isDeleted := f.testBit 1, flagStrings := flagStrings 5 f }
-  | .brin _ _ f t => { base with flags := f, isMeta := t == 0xF091 }
+  | .brin _ _ f t => { base with flags := f, isMeta := t == 0xF091, itemCount := if t == 0xF092 then 0 else base.itemCount,
+                                 flagStrings := flagStrings 6 f })
+
+@[simp] theorem metaHasNoItems_flagStrings (i : PageInfo) : (metaHasNoItems i).flagStrings = i.flagStrings := by
+  unfold metaHasNoItems; split <;> rfl
+@[simp] theorem metaHasNoItems_indexType (i : PageInfo) : (metaHasNoItems i).indexType = i.indexType := by
+  unfold metaHasNoItems; split <;> rfl
+@[simp] theorem metaHasNoItems_typeString (i : PageInfo) : (metaHasNoItems i).typeString = i.typeString := by
+  unfold metaHasNoItems; split <;> rfl
 
 theorem special_btree (info : PageInfo) (pr nx lv f c : Nat) (h : (Opaque.btree pr nx lv f c).WF) :
     parseBTreePageSpecial info (encOpaque (.btree pr nx lv f c)) =
@@ -190,7 +212,9 @@ theorem special_btree (info : PageInfo) (pr nx lv f c : Nat) (h : (Opaque.btree 
 theorem special_hash (info : PageInfo) (pr nx b f : Nat) (h : (Opaque.hash pr nx b f).WF) :
     parseHashPageSpecial info (encOpaque (.hash pr nx b f)) =
       .ok { info with prevBlock := pr, nextBlock := nx, flags := f, isMeta := f.testBit 3,
-                      level := if f.testBit 1 then b else info.level, flagStrings := info.flagStrings ++ flagStrings 2 f } := by
+                      level := if f.testBit 1 then b else info.level,
+                      itemCount := if f.testBit 2 then 0 else info.itemCount,
+                      flagStrings := info.flagStrings ++ flagStrings 2 f } := by
   obtain ⟨h1, h2, h3, h4⟩ := h
   have hl := encOpaque_length (.hash pr nx b f)
   simp only [Opaque.size, Opaque.am, AM.opaqueSize] at hl
@@ -202,7 +226,7 @@ theorem special_hash (info : PageInfo) (pr nx b f : Nat) (h : (Opaque.hash pr nx
   simp [opFields, offsetOf] at r0 r1 r2 r3
   unfold parseHashPageSpecial
   rw [if_neg (by omega)]
-  simp only [opFields, r0, r1, r2, r3, ok_bind, pure_eq_ok, bit1, bit3]
+  simp only [opFields, r0, r1, r2, r3, ok_bind, pure_eq_ok, bit1, bit2, bit3]
 
 theorem special_gist (info : PageInfo) (nsn r f : Nat) (h : (Opaque.gist nsn r f).WF) :
     parseGiSTPageSpecial info (encOpaque (.gist nsn r f)) =
@@ -221,7 +245,9 @@ theorem special_gist (info : PageInfo) (nsn r f : Nat) (h : (Opaque.gist nsn r f
 
 theorem special_gin (info : PageInfo) (r m f : Nat) (h : (Opaque.gin r m f).WF) :
     parseGINPageSpecial info (encOpaque (.gin r m f)) =
-      .ok { info with rightLink := r, flags := f, itemCount := (m : Int), isLeaf := f.testBit 1, isMeta := f.testBit 3,
+      .ok { info with rightLink := r, flags := f,
+                      itemCount := if f.testBit 0 || f.testBit 7 then (m : Int) else info.itemCount,
+                      isLeaf := f.testBit 1, isMeta := f.testBit 3,
                       isDeleted := f.testBit 2, flagStrings := info.flagStrings ++ flagStrings 4 f } := by
   obtain ⟨h1, h2, h3⟩ := h
   have hl := encOpaque_length (.gin r m f)
@@ -233,7 +259,7 @@ theorem special_gin (info : PageInfo) (r m f : Nat) (h : (Opaque.gin r m f).WF) 
   simp [opFields, offsetOf] at r0 r1 r2
   unfold parseGINPageSpecial
   rw [if_neg (by omega)]
-  simp only [opFields, r0, r1, r2, ok_bind, pure_eq_ok, bit1, bit2, bit3]
+  simp only [opFields, r0, r1, r2, ok_bind, pure_eq_ok, bit1, bit2, bit3, bit0or7]
 
 theorem special_spgist (info : PageInfo) (f a b : Nat) (h : (Opaque.spgist f a b).WF) :
     parseSPGiSTPageSpecial info (encOpaque (.spgist f a b)) =
@@ -250,7 +276,9 @@ theorem special_spgist (info : PageInfo) (f a b : Nat) (h : (Opaque.spgist f a b
   simp only [opFields, r0, ok_bind, pure_eq_ok, bit0, bit1, bit2]
 
 theorem special_brin (info : PageInfo) (a b f t : Nat) (h : (Opaque.brin a b f t).WF) :
-    parseBRINPageSpecial info (encOpaque (.brin a b f t)) = .ok { info with flags := f, isMeta := t == 0xF091 } := by
+    parseBRINPageSpecial info (encOpaque (.brin a b f t)) =
+      .ok { info with flags := f, isMeta := t == 0xF091, itemCount := if t == 0xF092 then 0 else info.itemCount,
+                      flagStrings := info.flagStrings ++ flagStrings 6 f } := by
   obtain ⟨h1, h2, h3, h4⟩ := h
   have ht : t < 2 ^ 16 := by rcases h4 with h | h | h <;> omega
   have hl := encOpaque_length (.brin a b f t)
@@ -278,22 +306,22 @@ theorem parseIndexPage_enc (p : Page) (h : p.WF) (num : Nat) :
   cases hp : p.op with
   | btree pr nx lv f c =>
     rw [hp] at hop
-    simp only [code, Opaque.am, special_btree _ _ _ _ _ _ hop, expectPage, hp, List.nil_append]
+    simp only [code, Opaque.am, special_btree _ _ _ _ _ _ hop, expectPage, hp, List.nil_append, ok_bind, pure_eq_ok]
   | hash pr nx b f =>
     rw [hp] at hop
-    simp only [code, Opaque.am, special_hash _ _ _ _ _ hop, expectPage, hp, List.nil_append]
+    simp only [code, Opaque.am, special_hash _ _ _ _ _ hop, expectPage, hp, List.nil_append, ok_bind, pure_eq_ok]
   | gist nsn r f =>
     rw [hp] at hop
-    simp only [code, Opaque.am, special_gist _ _ _ _ hop, expectPage, hp, List.nil_append]
+    simp only [code, Opaque.am, special_gist _ _ _ _ hop, expectPage, hp, List.nil_append, ok_bind, pure_eq_ok]
   | gin r m f =>
     rw [hp] at hop
-    simp only [code, Opaque.am, special_gin _ _ _ _ hop, expectPage, hp, List.nil_append]
+    simp only [code, Opaque.am, special_gin _ _ _ _ hop, expectPage, hp, List.nil_append, ok_bind, pure_eq_ok]
   | spgist f a b =>
     rw [hp] at hop
-    simp only [code, Opaque.am, special_spgist _ _ _ _ hop, expectPage, hp, List.nil_append]
+    simp only [code, Opaque.am, special_spgist _ _ _ _ hop, expectPage, hp, List.nil_append, ok_bind, pure_eq_ok]
   | brin a b f t =>
     rw [hp] at hop
-    simp only [code, Opaque.am, special_brin _ _ _ _ _ hop, expectPage, hp]
+    simp only [code, Opaque.am, special_brin _ _ _ _ _ hop, expectPage, hp, List.nil_append, ok_bind, pure_eq_ok]
 
 /-! ### from the model record to the Spec's view -/
 
@@ -331,8 +359,31 @@ theorem viewOf_expect (p : Page) (h : p.WF) (num : Nat) :
   have e2 := tdiv_items p.lower h24
   have e3 : ((p.upper : Int) - (p.lower : Int)).toNat = p.upper - p.lower := by omega
   have e4 : (0 : Int) ≤ (p.upper : Int) - (p.lower : Int) := by omega
-  cases hp : p.op <;>
-    simp [viewOf, expectPage, pageView, hp, e1, e2, e3, formatLSN_eq, Opaque.am, Opaque.flags, brinMeta]
-  all_goals omega
+  have e5 : ((((p.lower - 24) / 4 : Nat) : Int)).toNat = (p.lower - 24) / 4 := by omega
+  cases hp : p.op with
+  | btree pr nx lv f c =>
+    by_cases h3 : f.testBit 3 = true <;>
+      simp [viewOf, expectPage, pageView, itemCountOf, linePointers, metaHasNoItems, hp, e1, e2, e3, formatLSN_eq,
+        Opaque.am, Opaque.flags, h3] <;> omega
+  | hash pr nx b f =>
+    by_cases h3 : f.testBit 3 = true <;> by_cases h2 : f.testBit 2 = true <;>
+      simp [viewOf, expectPage, pageView, itemCountOf, linePointers, metaHasNoItems, hp, e1, e2, e3, formatLSN_eq,
+        Opaque.am, Opaque.flags, h3, h2] <;> omega
+  | gist nsn r f =>
+    simp [viewOf, expectPage, pageView, itemCountOf, linePointers, metaHasNoItems, hp, e1, e2, e3, formatLSN_eq,
+      Opaque.am, Opaque.flags]
+    omega
+  | gin r m f =>
+    by_cases h3 : f.testBit 3 = true <;> by_cases h0 : f.testBit 0 = true <;> by_cases h7 : f.testBit 7 = true <;>
+      simp [viewOf, expectPage, pageView, itemCountOf, linePointers, metaHasNoItems, hp, e1, e2, e3, formatLSN_eq,
+        Opaque.am, Opaque.flags, h3, h0, h7] <;> omega
+  | spgist f a b =>
+    by_cases h0 : f.testBit 0 = true <;>
+      simp [viewOf, expectPage, pageView, itemCountOf, linePointers, metaHasNoItems, hp, e1, e2, e3, formatLSN_eq,
+        Opaque.am, Opaque.flags, h0] <;> omega
+  | brin a b f t =>
+    by_cases h1 : t = 0xF091 <;> by_cases h2 : t = 0xF092 <;>
+      simp [viewOf, expectPage, pageView, itemCountOf, linePointers, metaHasNoItems, hp, e1, e2, e3, formatLSN_eq,
+        Opaque.am, Opaque.flags, brinMeta, brinRevmap, h1, h2] <;> omega
 
 end PgVerif.Proofs.Index
